@@ -1123,10 +1123,26 @@ impl Exec {
         let (c2, _) = run_cli(&["--lib", "naive", "--grd", "--export", json.to_str()?, other.to_str()?]);
         let second = std::fs::read(&json).ok()?;
         let (c3, imported) = run_cli(&["--lib", "naive", "--import", "--grd", "--com", "--stm", json.to_str()?]);
-        Some(if c1 == 0 && c2 == 0 && c3 == 0 && first == second && direct == imported && !direct.is_empty() {
+        // an existing file of length zero, and one with arbitrary other content, are existing files too
+        let empty = tmp_file("empty.json");
+        std::fs::write(&empty, "").ok()?;
+        let (c4, _) = run_cli(&["--lib", "naive", "--grd", "--export", empty.to_str()?, file.to_str()?]);
+        let empty_after = std::fs::read(&empty).ok()?;
+        let notes = tmp_file("notes.json");
+        std::fs::write(&notes, "precious notes\n").ok()?;
+        let (c5, _) = run_cli(&["--lib", "naive", "--grd", "--export", notes.to_str()?, file.to_str()?]);
+        let notes_after = std::fs::read(&notes).ok()?;
+        let kept = empty_after.is_empty() && notes_after == b"precious notes\n";
+        let _ = std::fs::remove_file(&empty);
+        let _ = std::fs::remove_file(&notes);
+        Some(if c1 == 0 && c2 == 0 && c3 == 0 && c4 == 0 && c5 == 0 && first == second && kept && direct == imported && !direct.is_empty() {
             "~ export ok".to_string()
         } else {
-            format!("~ export violated exits={c1},{c2},{c3} unchanged={} same-answers={}", first == second, direct == imported)
+            format!(
+                "~ export violated exits={c1},{c2},{c3},{c4},{c5} unchanged={} empty-and-foreign-files-kept={kept} same-answers={}",
+                first == second,
+                direct == imported
+            )
         })
     }
 
